@@ -19,6 +19,60 @@ from typing import Dict, Iterator, List, Optional, Tuple
 PKG = "ufo2ft"
 
 
+_NAMESPACE_ATTRS = ("context", "options")
+
+
+def _normalise_namespace_aliases(tree: ast.Module) -> None:
+    """`ctx = self.context` (or `opts = self.options`) followed by `ctx.x` is the same as `self.context.x` as long as the
+    method neither rebinds the alias nor replaces the namespace (no store to self.context, no set_context /
+    setContext / __call__ / write call): loads of such an alias are rewritten to the attribute it stands for, so
+    that introducing or removing the alias can never change a verdict.  The alias assignment itself stays."""
+    for fn in ast.walk(tree):
+        if not isinstance(fn, (ast.FunctionDef, ast.AsyncFunctionDef)) or not fn.args.args or fn.args.args[0].arg != "self":
+            continue
+        stores: dict = {}
+        kills = False
+        nested = False
+        for n in ast.walk(fn):
+            if n is not fn and isinstance(n, (ast.FunctionDef, ast.AsyncFunctionDef, ast.Lambda)):
+                nested = True
+            if isinstance(n, ast.Name) and isinstance(n.ctx, (ast.Store, ast.Del)):
+                stores[n.id] = stores.get(n.id, 0) + 1
+            if isinstance(n, ast.Attribute) and n.attr in _NAMESPACE_ATTRS and isinstance(n.value, ast.Name) and n.value.id == "self" and not isinstance(n.ctx, ast.Load):
+                kills = True
+            if isinstance(n, ast.Call):
+                cn = n.func.attr if isinstance(n.func, ast.Attribute) else n.func.id if isinstance(n.func, ast.Name) else ""
+                if cn in ("set_context", "setContext", "__call__", "write"):
+                    kills = True
+        if kills or nested:
+            continue
+        aliases = {}
+        for st in fn.body:  # only top-level statements of the method: the alias dominates everything after it
+            if isinstance(st, ast.Assign) and len(st.targets) == 1 and isinstance(st.targets[0], ast.Name) and stores.get(st.targets[0].id) == 1 \
+                    and isinstance(st.value, ast.Attribute) and st.value.attr in _NAMESPACE_ATTRS and isinstance(st.value.value, ast.Name) and st.value.value.id == "self":
+                aliases[st.targets[0].id] = st.value.attr
+        if not aliases:
+            continue
+        params = {a.arg for a in fn.args.posonlyargs + fn.args.args + fn.args.kwonlyargs}
+        aliases = {k: v for k, v in aliases.items() if k not in params}
+        if not aliases:
+            continue
+
+        class R(ast.NodeTransformer):
+            def visit_Name(self, node):
+                if isinstance(node.ctx, ast.Load) and node.id in aliases:
+                    new = ast.Attribute(value=ast.Name(id="self", ctx=ast.Load()), attr=aliases[node.id], ctx=ast.Load())
+                    ast.copy_location(new, node)
+                    ast.copy_location(new.value, node)
+                    for a_ in ("end_lineno", "end_col_offset"):
+                        setattr(new, a_, getattr(node, a_, None))
+                        setattr(new.value, a_, getattr(node, a_, None))
+                    new.alias_of = node.id
+                    return new
+                return node
+        fn.body = [R().visit(st) for st in fn.body]
+
+
 def _normalise_local_annotations(tree: ast.Module) -> None:
     """Inside function bodies, `x: T = v` is the same statement as `x = v` for every rule
     here: rewrite it to an Assign (the annotation is kept in `.ann`), so that adding or
@@ -191,6 +245,7 @@ class Index:
                 except SyntaxError as e:
                     raise AnalysisError(f"cannot parse {path}: {e}") from e
                 _normalise_local_annotations(tree)
+                _normalise_namespace_aliases(tree)
                 mi = ModuleInfo(modname, path, os.path.relpath(path, self.root), tree, src)
                 self.modules[modname] = mi
                 self._index_module(mi, is_pkg=fn == "__init__.py")
